@@ -316,10 +316,12 @@ fn plan_for(t: &Tree, path: &str, recursive: bool, follow: bool) -> Plan {
 /// acceptable new permission values (first = the plain reading) for one selected entry
 fn want_modes(act: &Act, is_dir: bool, old: u32) -> Vec<u32> {
     let hi = old & !0o777;
+    // an octal value replaces all twelve permission bits (special bits included), only the file type stays
+    let ty = old & !0o7777;
     match act {
-        Act::All(m) => vec![hi | *m],
-        Act::Dirs(m) => vec![if is_dir { hi | *m } else { old }],
-        Act::Files(m) => vec![if is_dir { old } else { hi | *m }],
+        Act::All(m) => vec![ty | *m],
+        Act::Dirs(m) => vec![if is_dir { ty | *m } else { old }],
+        Act::Files(m) => vec![if is_dir { old } else { ty | *m }],
         Act::Sym(s) => match parse_expr(s) {
             Some(cs) => vec![hi | apply_expr(old & 0o777, is_dir, &cs)],
             None => vec![old],
@@ -338,7 +340,7 @@ fn want_modes(act: &Act, is_dir: bool, old: u32) -> Vec<u32> {
         Act::Mixed { dirs, files, sym } => {
             let oct = if is_dir { *dirs } else { *files };
             if oct != 0 {
-                vec![hi | oct]
+                vec![ty | oct]
             } else {
                 want_modes(&Act::Sym(sym.clone()), is_dir, old)
             }
@@ -1069,7 +1071,7 @@ fn malformed_sweep(ctx: &Ctx, c: &Counters, agg: &Agg, max_len: u32) {
 // Part (ii): trees
 // ---------------------------------------------------------------------------------------------
 const SYMS: [&str; 5] = ["a:o+w", "f:ug-r", "d:g=w", "f:a+x,d:o-x", "d:u-w,f:g+w"];
-const OCT: [u32; 2] = [0o750, 0o604];
+const OCT: [u32; 3] = [0o750, 0o604, 0o4711];
 
 // ---------------------------------------------------------------------------------------------
 // Deep chain: recursion must reach every level, not only the few the enumerated trees have. One
